@@ -154,6 +154,10 @@ def run(rep, tier, seed):
                      'iteration records its footprint on memory that is not private to the region; iterations must be pairwise free of write/write and '
                      'write/read overlaps, and region code outside the iterations must not write shared memory; results still equal the specification')
     n1 = outlined_rules(rep, 'avx2')
+    # all sizes: a chunk / slice size that is narrowed (an explicit truncation, a 32-bit alignment mask on a 64-bit count) makes the
+    # chunks stop covering the array for large sizes, differently for different thread counts (R-NARROW, shared with C18)
+    from .. import rules as _rules
+    _rules.rule_narrow(rep, family=r'^Goldilocks::(parcpy|parSetZero)\(')
     n2 = outlined_rules(rep, 'avx512')
     import multiprocessing as mp
     nproc = min(16, os.cpu_count() or 4)
